@@ -36,6 +36,13 @@ func (u *unionCodec) Skip(r *ReadBuf) error {
 }
 
 func (u *unionCodec) New(r *ReadBuf) unsafe.Pointer {
+	// Every branch decodes into the same Go type, so any branch that can
+	// allocate that type will do.
+	for _, c := range u.codecs {
+		if p := c.New(r); p != nil {
+			return p
+		}
+	}
 	return nil
 }
 
